@@ -23,7 +23,9 @@ CheckRead(r, incl) ==
 \* one reading of the range end for the whole trace
 IsRead(i) == Trace[i].chk = "read"
 AllOK(incl) == \A i \in DOMAIN Trace : IsRead(i) => CheckRead(Trace[i], incl) = "ok"
-Incl == IF AllOK(FALSE) THEN FALSE ELSE IF AllOK(TRUE) THEN TRUE ELSE FALSE
+\* the harness asks the library once per run how it reads the end row and hands the answer in
+Incl == IF "INCL" \in DOMAIN IOEnv THEN IOEnv.INCL = "true"
+        ELSE IF AllOK(FALSE) THEN FALSE ELSE IF AllOK(TRUE) THEN TRUE ELSE FALSE
 
 Check(r) == CASE r.chk = "read" -> CheckRead(r, Incl)
               [] r.chk = "skip" -> "ok"
